@@ -2,7 +2,6 @@ package main
 
 import (
 	"fmt"
-	"go/token"
 	"strings"
 
 	"golang.org/x/tools/go/ssa"
@@ -128,67 +127,36 @@ func checkC07(c *Ctx, r *Report) {
 	if fn := c.Method("pkg/ipmi", "Message", "DecodeFromBytes"); fn == nil {
 		r.Lost("ipmi.Message.DecodeFromBytes")
 	} else {
-		data := fn.Params[1]
-		type ck struct {
-			ifi    *ssa.If
-			lo, hi string
-		}
-		var cks []ck
-		for _, ifi := range ifsOf(fn) {
-			op, x, y, _, isBin := condOf(ifi.Cond)
-			if !isBin || (op != token.NEQ && op != token.EQL) {
+		// decided on engine E2's checksum events: on every success path the checksum of bytes
+		// [0,2) was found equal to byte 2 and the checksum of bytes [3, n−1) equal to byte n−1
+		// (the last byte), wherever in the decoder or its helpers the comparisons are made
+		evs, why := extractEvents(c, fn, nil)
+		ok1, ok2, nOK := true, true, 0
+		for _, le := range evs {
+			if !le.OK {
 				continue
 			}
-			for _, pr := range [][2]ssa.Value{{x, y}, {y, x}} {
-				call, ok := pr[1].(*ssa.Call)
-				if !ok || call.Call.StaticCallee() == nil || !checksumShape(call.Call.StaticCallee()) {
+			nOK++
+			has1, has2 := false, false
+			for _, ev := range le.Events {
+				if ev.Kind != "sum" || ev.Org != "d" || !strings.HasPrefix(ev.Val, "eq") || ev.Idx == nil || ev.L == nil || ev.V == nil {
 					continue
 				}
-				sl, ok := call.Call.Args[0].(*ssa.Slice)
-				if !ok || sl.X != ssa.Value(data) {
-					continue
+				if linEq(*ev.Idx, linConst(0)) && linEq(*ev.L, linConst(2)) && linEq(*ev.V, linConst(2)) {
+					has1 = true
 				}
-				lo, hi := "0", "len"
-				if sl.Low != nil {
-					lo = exprText(sl.Low)
+				if le.DLen != nil && linEq(*ev.Idx, linConst(3)) && linEq(*ev.L, le.DLen.addConst(-4)) && linEq(*ev.V, le.DLen.addConst(-1)) {
+					has2 = true
 				}
-				if sl.High != nil {
-					hi = exprText(sl.High)
-				}
-				cks = append(cks, ck{ifi, lo, hi})
 			}
+			ok1, ok2 = ok1 && has1, ok2 && has2
 		}
-		succ := successReturns(fn)
-		// delegation: returns of helper results count as success exits
-		for _, ret := range returnsOf(fn) {
-			if call, isCall := ret.Results[0].(*ssa.Call); isCall {
-				if cf := call.Call.StaticCallee(); cf != nil && c.InModule(cf) {
-					succ = append(succ, ret)
-				}
-			}
+		if nOK == 0 {
+			ok1, ok2 = false, false
 		}
-		want := map[string]bool{"0..2": false, "3..(len(data)-1)": false}
-		for _, k := range cks {
-			key := k.lo + ".." + k.hi
-			if _, ok := want[key]; !ok {
-				continue
-			}
-			op, _, _, neg, _ := condOf(k.ifi.Cond)
-			eqEdge := edge{k.ifi.Block(), k.ifi.Block().Succs[0]}
-			if (op == token.NEQ) != neg {
-				eqEdge = edge{k.ifi.Block(), k.ifi.Block().Succs[1]}
-			}
-			reach := reachAvoiding(fn, nil, nil, map[edge]bool{eqEdge: true})
-			guarded := len(succ) > 0
-			for _, ret := range succ {
-				if reach[ret.Block()] {
-					guarded = false
-				}
-			}
-			want[key] = guarded
-		}
-		r.Check(want["0..2"], "ipmi.Message.DecodeFromBytes|checksum1 over bytes 0..1", fn.Pos(), "verified before success", "checksum 1 is not verified over bytes 0..1 before the message is accepted")
-		r.Check(want["3..(len(data)-1)"], "ipmi.Message.DecodeFromBytes|checksum2 over bytes 3..n-2", fn.Pos(), "verified before success", "checksum 2 is not verified over bytes 3..n-2 before the message is accepted")
+		_ = why
+		r.Check(ok1, "ipmi.Message.DecodeFromBytes|checksum1 over bytes 0..1", fn.Pos(), "verified before success", "checksum 1 is not verified over bytes 0..1 before the message is accepted")
+		r.Check(ok2, "ipmi.Message.DecodeFromBytes|checksum2 over bytes 3..n-2", fn.Pos(), "verified before success", "checksum 2 is not verified over bytes 3..n-2 before the message is accepted")
 		// and the compared values are the wire's own checksum bytes (layout: Checksum1 = d2, Checksum2 = last byte)
 	}
 
